@@ -207,27 +207,30 @@ class Canon(object):
 # adapters for the real code
 # ---------------------------------------------------------------------------
 
-ERR_PATTERNS = [
-    ('no valid marker genes could be found at any level', 'noMarkersAnyLevel'),
-    ('validating marker lookup', 'validating'),
-    ('were present in query set', 'noQueryOverlap'),
-    ('are not in the reference dataset', 'notInReference'),
-    ('appear to describe different taxonomies', 'differentTaxonomies'),
-    ('Mismatch between query marker genes', 'mismatch'),
-    ('not in marker cache path', 'missingGroup'),
-    ('That is the leaf level', 'tree:isLeafLevel'),
-    ('It is flat', 'tree:flatTree'),
-]
-
-
 def classify_error(exc):
-    msg = str(exc)
-    for pat, name in ERR_PATTERNS:
-        if pat in msg:
-            return name
+    """An error is classified by its TYPE only (the property says "ends with
+    an error", never with which words); which of the documented situations it
+    belongs to is decided by the situation the suite constructed (which call
+    raised, what the independent expectation says), not by the message."""
     if isinstance(exc, KeyError):
         return 'keyError'
-    return 'other:%s:%s' % (type(exc).__name__, msg[:100])
+    return type(exc).__name__
+
+
+# the exception class each error constructor of the Lean model stands for
+MODEL_ERR_CLASS = {
+    'noMarkersAnyLevel': 'RuntimeError', 'validating': 'RuntimeError',
+    'noQueryOverlap': 'RuntimeError', 'notInReference': 'RuntimeError',
+    'differentTaxonomies': 'RuntimeError', 'mismatch': 'RuntimeError',
+    'keyError': 'keyError', 'missingGroup': 'keyError',
+    'badIndex': 'IndexError',
+}
+
+
+def model_err_class(name):
+    if name.startswith('tree:'):
+        return 'RuntimeError'
+    return MODEL_ERR_CLASS.get(name, name)
 
 
 def impl_validate(case, tt=None):
@@ -307,8 +310,6 @@ def impl_create_cache(case, workdir, with_tree=True, name='cache.h5',
             try:
                 ser = ('ok', serialize_markers(marker_cache_path=path,
                                                taxonomy_tree=tt))
-            except KeyError:
-                ser = ('missingGroup', None)
             except Exception as e:     # noqa: any failure is a verdict here
                 ser = (classify_error(e), None)
     return 'ok', cache, ser
